@@ -12,7 +12,9 @@ IdGens == {"sequential", "sequential0", "randint", "random", "uuid", "empty_stri
 Kinds == {"sync", "async"}
 DKinds == {"sync", "async", "async_plain"}     \* async_plain: the asynchronous dispatcher serving plain (non-coroutine) functions
 Combos == {<<"sequential", TRUE, "sync", "sync">>, <<"random", TRUE, "async", "async">>,
-           <<"randint", FALSE, "sync", "async">>, <<"uuid", TRUE, "async", "sync">>, <<"sequential0", TRUE, "sync", "async_plain">>}
+           <<"randint", FALSE, "sync", "async">>, <<"uuid", TRUE, "async", "sync">>, <<"sequential0", TRUE, "sync", "async_plain">>,
+           \* the same batch programs on the OTHER client half (C11 pairs executions that differ in the halves only)
+           <<"sequential", TRUE, "async", "sync">>, <<"randint", FALSE, "async", "async">>}
 CallsFull  == {Cl(b, a, n) : b \in Behs, a \in Args, n \in BOOLEAN}
 CallsSmall == {Cl("echo", "posdict", FALSE), Cl("echo", "pos", FALSE), Cl("echo", "named", FALSE), Cl("typed", "none", FALSE), Cl("exc", "pos", FALSE),
                Cl("echo", "pos", TRUE), Cl("exc", "none", TRUE)}
